@@ -1,2 +1,46 @@
-(** Theorems for C06: filled in below as the proofs land. *)
-From JL Require Import Base.Json.
+(** * C06: one JsonLogic truthiness table governs every boolean decision.
+    Statements only; proofs are in Proofs/Truthy.v (and the C05/C13/C14 theorems, which are
+    stated with the same [truthy_spec]). *)
+From Coq Require Import List Bool NArith.
+From JL Require Import Base.Json Base.F64 Base.Monad Model.Ops Spec.Specs Spec.OpSpecs.
+From JL Require Import Proofs.Truthy Proofs.Logic Proofs.Arrays.
+Import ListNotations.
+
+(** the model's single truthiness function is the table of the property *)
+Theorem C06_truthy_is_table : forall v, truthy v = truthy_spec v.
+Proof. exact truthy_eq. Qed.
+Print Assumptions C06_truthy_is_table.
+
+(** the table, spelled out: exactly false, null, zero (any spelling, including -0), "" and [] are falsy *)
+Theorem C06_falsy_values :
+  forall v, truthy_spec v = false <->
+    (v = Bool false \/ v = Null \/ v = Str [] \/ v = Arr [] \/
+     exists n, v = Num n /\ f64_eqb (as_f64 n) f64_zero = true).
+Proof. exact truthy_table. Qed.
+Print Assumptions C06_falsy_values.
+
+(** `!` is the exact negation of `!!` *)
+Theorem C06_not_negates :
+  forall items, op_not items =
+                omap (fun v => match v with Bool b => Bool (negb b) | x => x end) (op_double_not items).
+Proof. exact op_not_negates. Qed.
+Print Assumptions C06_not_negates.
+
+(** every deciding operator is (proved equal to) a specification written with [truthy_spec]:
+    if / ?: / and / or (C05), filter (C13), all / some / none (C14) *)
+Theorem C06_same_table_everywhere :
+  forall (parsed : Type) (P : value -> outcome parsed) (E : parsed -> value -> M value) d,
+    (forall args, if_ parsed P E d args = if_spec (pe parsed P E) d args) /\
+    (forall args, or_ parsed P E d args = or_spec (pe parsed P E) d args) /\
+    (forall args, and_ parsed P E d args = and_spec (pe parsed P E) d args) /\
+    (forall c e, filter_ parsed P E d [c; e] = filter_spec (pe parsed P E) (chk parsed P) d c e).
+Proof.
+  intros parsed P E d. repeat split; intros.
+  - apply if_is_spec. - apply or_is_spec. - apply and_is_spec. - apply filter_is_spec.
+Qed.
+Print Assumptions C06_same_table_everywhere.
+
+Example C06_corner_values :
+  map truthy_spec [Str [48%N]; Arr [Num (PosInt 0%N)]; Arr [Arr []]; Obj []; Num (Float (SpecFloat.S754_zero true))]
+  = [true; true; true; true; false].
+Proof. reflexivity. Qed.
